@@ -77,8 +77,12 @@ def main():
         res["demo_patched_rc"] = rc
         res["demo_patched_tail"] = o[-1200:]
         if "--skip-suite" not in a:
-            if os.path.exists(demo):
-                sh("git apply -R --whitespace=nowarn %s" % demo, cwd=wt)
+            # the suite runs on HEAD + patch only: start from a clean tree (reverse-applying the demo can fail when it touches a
+            # file the patch also touches, leaving half of it behind)
+            sh("git checkout -- . && git clean -fdq", cwd=wt)
+            rc, o = sh("git apply --whitespace=nowarn %s" % patch, cwd=wt)
+            if rc != 0:
+                res["error"] = "re-applying the patch on a clean tree failed: " + o[-400:]
             rc, o = sh("cargo nextest run --workspace --no-fail-fast --test-threads 8 --offline 2>&1 | tail -15", cwd=wt, env=env)
             m = re.search(r"(\d+) tests run: (\d+) passed(?:, (\d+) failed)?", o)
             res["suite"] = m.group(0) if m else o[-400:]
